@@ -29,7 +29,7 @@ P = "OQuPyVerif.Props.C20."
 THEOREMS = [P + "memo_table", P + "copy_table", P + "array_table", P + "cache_sound",
             P + "copy_independent", P + "no_mutation_layout_indep", P + "layout_indep",
             P + "reuse_eq_fresh", P + "arg_table", P + "arg_store_sound",
-            P + "return_table", P + "returns_fresh",
+            P + "return_table", P + "returns_fresh", P + "derived_table", P + "reinit_current",
             "OQuPyVerif.Aliasing.reshapeView_insert_ones", "OQuPyVerif.Aliasing.sim_run",
             "OQuPyVerif.Aliasing.static_run", "OQuPyVerif.Aliasing.inv_step"]
 
@@ -494,8 +494,11 @@ def worst_answer(outs):
 
 
 def parse_tables(line):
-    memo, cop, arr, args, rets = [x.strip() for x in line.split("||")]
-    out = {"memo": [], "copies": [], "arrays": [], "args": [], "returns": []}
+    memo, cop, arr, args, rets, ders = [x.strip() for x in line.split("||")]
+    out = {"memo": [], "copies": [], "arrays": [], "args": [], "returns": [], "derived": []}
+    for tok in ders.split():
+        f = tok.split(":")
+        out["derived"].append({"func": f[0], "attr": f[1], "guard": f[2], "ok": f[3] == "ok=true"})
     for tok in rets.split():
         f = tok.split(":")
         out["returns"].append({"func": f[0], "kind": f[1], "ok": f[2] == "ok=true"})
@@ -669,16 +672,23 @@ class History:
             self.ops.append(("bath", 0))
             live.append(2)
             nobj = 3
+        baths = [1] if nobj == 3 else []      # handles of the baths' own copies
         for _ in range(n):
             r = rng.random()
             if r < 0.12 and nobj < 7:
                 self.ops.append(("new", rnd_codes()))
                 live.append(nobj)
                 nobj += 1
-            elif r < 0.30 and nobj < 7:
+            elif r < 0.24 and baths and nobj < 9:
+                # bath.correlations once more: what the bath hands out now
+                self.ops.append(("access", rng.choice(baths)))
+                live.append(nobj)
+                nobj += 1
+            elif r < 0.38 and nobj < 7:
                 src = rng.choice(live)
                 # Bath(op, src): internal copy (id nobj), bath.correlations: copy of it (id nobj+1)
                 self.ops.append(("bath", src))
+                baths.append(nobj)
                 live.append(nobj + 1)
                 nobj += 2
             elif r < 0.55:
@@ -758,6 +768,7 @@ class RealRun:
         from oqupy import operators as op
         self.cls = cls
         self.objs = []
+        self.baths = {}
         self.sz = op.sigma("z")
 
     def step(self, o):
@@ -767,8 +778,12 @@ class RealRun:
             return None
         if o[0] == "bath":
             b = oqupy.Bath(self.sz, self.objs[o[1]])
+            self.baths[len(self.objs)] = b
             self.objs.append(b._correlations)        # the Bath's own copy (copy site 0)
             self.objs.append(b.correlations)         # what the Bath hands out (copy site 1)
+            return None
+        if o[0] == "access":
+            self.objs.append(self.baths[o[1]].correlations)
             return None
         if o[0] == "set":
             setattr(self.objs[o[1]], o[2], val(o[2], o[3]))
@@ -794,6 +809,8 @@ class SpecRun:
             self.codes.append(dict(o[1]))
         elif o[0] == "bath":
             self.codes.append(dict(self.codes[o[1]]))
+            self.codes.append(dict(self.codes[o[1]]))
+        elif o[0] == "access":
             self.codes.append(dict(self.codes[o[1]]))
         elif o[0] == "set":
             self.codes[o[1]][o[2]] = o[3]
@@ -826,6 +843,9 @@ def memo_line(h, taucodes):
             plan.append([len(toks), len(toks) + 1])
             toks.append("copy %d 0" % o[1])
             toks.append("copy @prev 1")
+        elif o[0] == "access":
+            plan.append([len(toks)])
+            toks.append("copy %d 1" % o[1])
         elif o[0] == "set":
             plan.append([len(toks)])
             toks.append("set %d %s %d" % (o[1], o[2], o[3]))
@@ -1431,6 +1451,186 @@ def oracle_eval_copy_set_copy(cls, attr, method, k):
     return h, replay_history(h)
 
 
+def oracle_handed_out(cls, attr, method, k):
+    """bc = bath.correlations; bc.attr = v; what the bath hands out next (and the bath's own
+    copy) must be as before"""
+    codes = dict(BASE[cls])
+    h = {"cls": cls, "ops": [["new", codes], ["bath", 0], ["set", 2, attr, 2], ["access", 1],
+                             ["eval", 3, method, k], ["eval", 1, method, k]]}
+    return h, replay_history(h)
+
+
+def oracle_bath_tempo():
+    """Tempo objects built before / after an edit of the object `bath.correlations` handed out
+    must equal a Tempo on a fresh, untouched bath"""
+    import oqupy
+    from oqupy import operators as op
+
+    def bath():
+        return oqupy.Bath(0.5 * op.sigma("z"),
+                          oqupy.PowerLawSD(alpha=0.1, zeta=1.0, cutoff=2.0, temperature=0.5))
+
+    def tempo(b):
+        return oqupy.Tempo(system=oqupy.System(0.5 * op.sigma("x")), bath=b,
+                           parameters=oqupy.TempoParameters(dt=0.1, epsrel=1e-5, dkmax=3),
+                           initial_state=op.spin_dm("z+"), start_time=0.0)
+    ref = np.array(tempo(bath()).compute(0.3, progress_type="silent").states)
+    b = bath()
+    before = tempo(b)
+    handed = b.correlations
+    handed.alpha = 0.4
+    after = tempo(b)
+    out = {}
+    for name, t in (("built-before-the-edit", before), ("built-after-the-edit", after)):
+        got = np.array(t.compute(0.3, progress_type="silent").states)
+        dev = float(np.max(np.abs(got - ref)))
+        if not dev < 1e-10:
+            out[name] = dev
+    if abs(b.correlations.alpha - 0.1) > 0:
+        out["bath.correlations.alpha"] = b.correlations.alpha
+    return out or None
+
+
+# ---------------------------------------------------------------------------
+# (vii) PtTebd: restart after the caller changed the parameters / the chain
+# ---------------------------------------------------------------------------
+
+TEBD_MUTATIONS = ["dt", "order", "epsrel", "chain-term"]
+
+
+def tebd_objects():
+    import oqupy
+    from oqupy import operators as op
+    ch = oqupy.SystemChain([2, 2])
+    ch.add_site_hamiltonian(0, 0.5 * op.sigma("z"))
+    ch.add_nn_hamiltonian(0, 0.6 * op.sigma("x"), op.sigma("x"))
+    ch.add_nn_hamiltonian(0, 0.3 * op.sigma("y"), op.sigma("z"))
+    par = oqupy.PtTebdParameters(dt=0.2, order=1, epsrel=1e-9)
+    return ch, par
+
+
+def tebd_new(ch, par):
+    import oqupy
+    from oqupy import operators as op
+    mps = oqupy.AugmentedMPS([op.spin_dm("x+"), op.spin_dm("z-")])
+    return oqupy.PtTebd(initial_augmented_mps=mps, system_chain=ch, process_tensors=[None, None],
+                        parameters=par, dynamics_sites=[0, 1])
+
+
+def tebd_mutate(what, ch, par, n):
+    from oqupy import operators as op
+    if what == "dt":
+        par.dt = [0.1, 0.05, 0.3][n % 3]
+    elif what == "order":
+        par.order = 2 if par.order == 1 else 1
+    elif what == "epsrel":
+        par.epsrel = [1e-2, 1e-6][n % 2]
+    elif what == "chain-term":
+        ch.add_site_hamiltonian(1, (0.4 + 0.1 * n) * op.sigma("x"))
+    else:
+        raise ValueError(what)
+
+
+def tebd_results(t, steps):
+    r = t.compute(end_step=steps, progress_type="silent")
+    return [float(x) for x in r["time"]], [np.array(r["dynamics"][k].states) for k in (0, 1)]
+
+
+def replay_tebd(hjson):
+    """ops: ["compute", n] | ["mut", what] | ["init"].  After every init+compute the re-used PtTebd
+    is compared with a fresh PtTebd built from the caller's objects as they are now.
+    -> (deviation description or None, list of booleans 'restart equals fresh' per init)"""
+    ch, par = tebd_objects()
+    t = tebd_new(ch, par)
+    verdicts, nmut, pending = [], 0, False
+    for n, o in enumerate(hjson["ops"]):
+        if o[0] == "compute":
+            times, states = tebd_results(t, o[1])
+            if pending:
+                ftimes, fstates = tebd_results(tebd_new(ch, par), o[1])
+                same = times == ftimes and all(
+                    a.shape == b.shape and np.allclose(a, b, rtol=1e-10, atol=1e-10)
+                    for a, b in zip(states, fstates))
+                verdicts.append(same)
+                pending = False
+                if not same and len(verdicts) and verdicts[-1] is False and "first_bad" not in hjson:
+                    dev = max(float(np.max(np.abs(a - b))) if a.shape == b.shape else float("inf")
+                              for a, b in zip(states, fstates))
+                    bad = {"op_index": n, "times_equal": times == ftimes, "max_abs_deviation": dev,
+                           "observed": "after initialize() the re-used PtTebd differs from a fresh "
+                                       "PtTebd built from the same (changed) parameters and chain"}
+                    return bad, verdicts
+        elif o[0] == "mut":
+            tebd_mutate(o[1], ch, par, nmut)
+            nmut += 1
+        elif o[0] == "init":
+            t.initialize()
+            pending = True
+    return None, verdicts
+
+
+def tebd_history(rng, n):
+    ops = [["compute", 2]]
+    for _ in range(n):
+        for _ in range(rng.randrange(0, 3)):
+            ops.append(["mut", rng.choice(TEBD_MUTATIONS)])
+        ops.append(["init"])
+        ops.append(["compute", rng.randrange(1, 4)])
+    return {"ops": ops}
+
+
+def tebd_lines(res, rng, tier, tables, corpus):
+    site = [i for i, d in enumerate(tables["derived"]) if d["attr"] == "_tebd_propagator"]
+    hs = list(corpus) + [tebd_history(rng, rng.randrange(1, 4)) for _ in range(3 if tier == "quick" else 12)]
+    lines, jobs = [], []
+    for h in hs:
+        if not site:
+            res.disagree("no generated derived-store entry for PtTebd._tebd_propagator", h)
+            continue
+        toks, ver = ["init"], 1
+        for o in h["ops"]:
+            if o[0] == "mut":
+                ver += 1
+                toks.append("mut %d" % ver)
+            elif o[0] == "init":
+                toks.append("init")
+        lines.append("derived %d %s" % (site[0], ";".join(toks)))
+        jobs.append(h)
+        res.count("tebd-history")
+        for o in h["ops"]:
+            res.count("tebd-op:" + o[0])
+    return lines, jobs
+
+
+def judge_tebd(res, h, line, got):
+    a, toks = got.split(";"), line.split(" ", 2)[2].split(";")
+    # model: per init the source version the gates were computed from vs the current version
+    cur, model = 1, []
+    for tok, ans in zip(toks, a):
+        if tok.startswith("mut"):
+            cur = int(tok.split()[1])
+        elif tok == "init":
+            model.append(int(ans) == cur)
+    model = model[1:]                 # the first init is the construction-time one
+    bad, verdicts = replay_tebd(dict(h, first_bad=False))
+    res.case(line, any(o[0] == "mut" for o in h["ops"]),
+             {"op": line[:160], "impl": str(verdicts), "model": str(model)})
+    # a change that leaves the results untouched is indistinguishable: only `model says current`
+    # is binding
+    for m, v in zip(model, verdicts):
+        if m and not v:
+            res.disagree("PtTebd restart: model says the gates are rebuilt from the current objects, "
+                         "the real PtTebd differs from a fresh one", {"history": h, "model": got,
+                                                                      "impl": verdicts})
+            return
+
+
+def oracle_tebd(what):
+    h = {"ops": [["compute", 2], ["mut", what], ["init"], ["compute", 3]]}
+    bad, _ = replay_tebd(h)
+    return h, bad
+
+
 # ---------------------------------------------------------------------------
 # (v) arrays held by process tensors must come out of the getters unchanged
 # ---------------------------------------------------------------------------
@@ -1597,6 +1797,10 @@ def replay_case(payload):
         return bad
     if kind == "table":
         return replay_table_history(payload["history"])
+    if kind == "tebd":
+        return replay_tebd(payload["history"])[0]
+    if kind == "bath-tempo":
+        return oracle_bath_tempo()
     if kind == "returned":
         return oracle_return(payload["func"])
     if kind == "pt":
@@ -1627,6 +1831,7 @@ def search(res, rng=None):
                     for what, oracle in (("old-value-after-set", oracle_stale),
                                          ("bath-copy-follows-original", oracle_bath_copy),
                                          ("copy-ignores-own-attribute", oracle_copy_own),
+                                         ("handed-out-object-changes-the-bath", oracle_handed_out),
                                          ("copy-after-eval-follows-original", oracle_eval_copy_set_original),
                                          ("original-follows-copy-after-eval", oracle_eval_copy_set_copy)):
                         try:
@@ -1746,12 +1951,45 @@ def search(res, rng=None):
                             "System.liouvillian, TimeDependentSystem.liouvillian, Bath.coupling_comm/"
                             "acomm and a small Tempo run built afterwards must be unchanged"})
 
-    for sec in (section_4, section_5, section_6, section_0, section_1, section_2, section_3):
+    def section_7():
+        # (9) PtTebd restarted after the caller changed its parameters / chain
+        for what in TEBD_MUTATIONS:
+            try:
+                h, bad = oracle_tebd(what)
+            except Exception as e:      # noqa: BLE001
+                h, bad = None, {"observed": "raises " + exc_kind(e)}
+            res.count("search:tebd")
+            if bad is not None:
+                add("tebd", "stale-after-initialize:PtTebd:%s" % what,
+                    {"kind": "tebd", "history": h, "observed": bad,
+                     "how": "2-site chain (0.5 sz on site 0, 0.6 sx.sx + 0.3 sy.sz), PtTebdParameters("
+                            "dt=0.2, order=1, epsrel=1e-9), product state x+ / z-; compute(2); change "
+                            "(dt -> 0.1 | order -> 2 | epsrel -> 1e-2 | add 0.4 sx on site 1) on the "
+                            "SAME parameter / chain objects; initialize(); compute(3); compare times "
+                            "(exactly) and reduced density matrices (1e-10) with a fresh PtTebd built "
+                            "from these objects"})
+
+    def section_8():
+        # (10) Tempo objects and the object bath.correlations hands out
+        try:
+            bad = oracle_bath_tempo()
+        except Exception as e:      # noqa: BLE001
+            bad = {"raises": exc_kind(e)}
+        res.count("search:bath-tempo")
+        if bad is not None:
+            add("bath-tempo", "editing-bath.correlations-changes-tempo:" + ",".join(sorted(bad)),
+                {"kind": "bath-tempo", "observed": bad,
+                 "how": "b = Bath(0.5 sz, PowerLawSD(0.1, 1, 2.0, T=0.5)); t1 = Tempo(b); "
+                        "c = b.correlations; c.alpha = 0.4; t2 = Tempo(b); both computed to 0.3 "
+                        "(dt 0.1, dkmax 3) vs a Tempo on a fresh untouched bath (1e-10)"})
+
+    for sec in (section_4, section_5, section_6, section_7, section_8, section_0, section_1,
+                section_2, section_3):
         try:
             sec()
         except Exception as e:      # noqa: BLE001
             res.notes.append("search: %s raised %s" % (sec.__name__, exc_kind(e)))
-    order = ["table", "pt", "returned", "copy-after-eval-follows-original", "original-follows-copy-after-eval",
+    order = ["table", "pt", "returned", "tebd", "bath-tempo", "handed-out-object-changes-the-bath", "copy-after-eval-follows-original", "original-follows-copy-after-eval",
              "old-value-after-set", "bath-copy-follows-original", "layout",
              "copy-ignores-own-attribute", "reuse", "history"]
     while any(found.get(k) for k in order):
@@ -1784,7 +2022,7 @@ def correspondence(res, tier, rng):
                          len(tables["copies"]), len(tables["arrays"]),
                          sum(s["safe"] for s in tables["arrays"])))
     # corpus first: stored failing inputs must not fail any more
-    corpus_hist, corpus_tab = [], []
+    corpus_hist, corpus_tab, corpus_tebd = [], [], []
     for fname, key, p in load_corpus():
         res.count("corpus")
         still = replay_case(p)
@@ -1794,14 +2032,17 @@ def correspondence(res, tier, rng):
             corpus_hist.append(History.from_json(p["history"]))
         if p.get("kind") == "table":
             corpus_tab.append(TableHistory.from_json(p["history"]))
+        if p.get("kind") == "tebd":
+            corpus_tebd.append(p["history"])
     lines, expect, meta = numpy_lines(res, tier)
     a_lines, a_exp, a_meta = api_lines(res, rng, tables)
     h_lines, jobs = history_cases(res, rng, tier, tables, corpus_hist)
     t_lines, t_jobs = table_cases(res, rng, tier, tables, corpus_tab)
     p_lines, p_jobs, have_pt_sites = pt_lines(res, rng, tables)
     r_lines, r_jobs = return_lines(res, tables)
+    d_lines, d_jobs = tebd_lines(res, rng, tier, tables, corpus_tebd)
     send = lines + [x for l in a_lines if l is not None for x in l] + h_lines + t_lines + p_lines \
-        + r_lines
+        + r_lines + d_lines
     out = fw.run_driver(PID, send)
     if len(out) != len(send):
         raise fw.Infra("driver returned %d lines for %d inputs" % (len(out), len(send)))
@@ -1835,6 +2076,14 @@ def correspondence(res, tier, rng):
     for job, line in zip(r_jobs, r_lines):
         judge_return(res, job, line, out[pos])
         pos += 1
+    for h, line in zip(d_jobs, d_lines):
+        judge_tebd(res, h, line, out[pos])
+        pos += 1
+    bt = oracle_bath_tempo()
+    res.count("bath-tempo")
+    if bt is not None and all(c["ok"] for c in tables["copies"]):
+        res.disagree("Tempo / bath change after editing the object bath.correlations handed out, "
+                     "though the copy table says every access is a copy", bt)
     for key, payload in computation_reuse(res, rng, tier):
         res.disagree("re-used objects give other results than fresh equal objects: " + key, payload)
 
@@ -1866,7 +2115,10 @@ def run(tier, seed, replay):
         "every path of the getter sites.  Returned arrays: every public function of oqupy.operators "
         "and util.create_delta: two calls give distinct arrays not sharing memory, after editing the "
         "first result a call and library objects built afterwards are unchanged (exact), vs the "
-        "model's verdict from the generated return table.  Non-trivial = reshape/shape cases of "
+        "model's verdict from the generated return table.  PtTebd: histories compute / change "
+        "dt, order, epsrel or add a chain term on the shared objects / initialize() / compute on one "
+        "PtTebd vs a fresh PtTebd from the current objects (times exact, states 1e-10) vs the model's "
+        "verdict from the derived-store table.  Non-trivial = reshape/shape cases of "
         "matching size, API cases, histories with a cache hit or a predicted stale value; distinct "
         "= distinct protocol line.")
     res.assumptions = [
